@@ -214,6 +214,25 @@ func (i idxField) GetValue(opts *options, elem value) (value, Error) {
 	return arr[i.i], nil
 }
 
+// deepest returns the last config that exists already on the way from cfg to
+// the setting p addresses: the config SetValue stores into or starts
+// building missing intermediate nodes at.
+func (p cfgPath) deepest(cfg *Config, opt *options) *Config {
+	node := cfg
+	for fields := p.fields; len(fields) > 1; fields = fields[1:] {
+		v, err := fields[0].GetValue(opt, cfgSub{node})
+		if err != nil || isNil(v) {
+			break
+		}
+		sub, cerr := v.toConfig(opt)
+		if cerr != nil {
+			break
+		}
+		node = sub
+	}
+	return node
+}
+
 func (p cfgPath) SetValue(cfg *Config, opt *options, val value) Error {
 	fields := p.fields
 	node := value(cfgSub{cfg})
